@@ -144,5 +144,43 @@ fn closed_while_reading_body(read: usize) -> (r: VpClose)
     VpClose::NotClosed
 }
 
+// ---- the client side wrapper (tcp_client_stream.rs::TcpClientStream::poll_next, whole body): what TcpStream reports is
+//      what the caller sees -- in particular "one closed inside a length prefix or body yields an error": the BrokenPipe
+//      items produced by the two kernels above must not be turned into a clean end of stream on the way up ----
+pub enum Poll<T> { Ready(T), Pending }
+pub struct VpSerialMessage { pub vp: u64, pub addr: u64 }
+impl VpSerialMessage { pub fn addr(&self) -> (r: u64) ensures r == self.addr { self.addr } }
+pub mod io {
+    use vstd::prelude::*;
+    verus! {
+    #[derive(Clone, Copy)] pub enum ErrorKind { BrokenPipe, UnexpectedEof, Other }
+    impl vstd::std_specs::cmp::PartialEqSpecImpl for ErrorKind { open spec fn obeys_eq_spec() -> bool { true } open spec fn eq_spec(&self, o: &ErrorKind) -> bool { *self == *o } }
+    impl PartialEq for ErrorKind { fn eq(&self, o: &ErrorKind) -> (r: bool) { match (*self, *o) { (ErrorKind::BrokenPipe, ErrorKind::BrokenPipe) => true, (ErrorKind::UnexpectedEof, ErrorKind::UnexpectedEof) => true, (ErrorKind::Other, ErrorKind::Other) => true, _ => false } } }
+    }
+}
+pub struct VpIoError { pub vp: u64, pub kind: io::ErrorKind }
+impl VpIoError { pub fn kind(&self) -> (r: io::ErrorKind) ensures r == self.kind { self.kind } }
+pub struct NetError { pub vp: u64 }
+impl NetError { #[verifier::external_body] pub fn from(e: VpIoError) -> (r: NetError) { unimplemented!() } }
+pub struct VpInnerTcp { pub peer: u64 }
+impl VpInnerTcp { pub fn peer_addr(&self) -> (r: u64) ensures r == self.peer { self.peer } }
+pub struct VpTcpClient { pub tcp_stream: VpInnerTcp }
+impl VpTcpClient {
+    fn client_poll_next(&self, inner: Poll<Option<Result<VpSerialMessage, VpIoError>>>) -> (r: Poll<Option<Result<VpSerialMessage, NetError>>>)
+        ensures match inner {
+            Poll::Pending => r is Pending,
+            Poll::Ready(None) => r matches Poll::Ready(None),                          // a clean end stays a clean end
+            Poll::Ready(Some(Err(_))) => r matches Poll::Ready(Some(Err(_))),          // an error reaches the caller as an error, whatever its kind
+            Poll::Ready(Some(Ok(m))) => r matches Poll::Ready(Some(Ok(m2))) && m2 == m,   // a message is handed on whole
+        }
+    {
+//%expr crates/net/src/tcp/tcp_client_stream.rs :: impl<S: DnsTcpStream> Stream for TcpClientStream<S> :: poll_next :: "let message = match ready!(" .. "Poll::Ready(Some(Ok(message)))"
+//%sub1 "ready!(self.tcp_stream.poll_next_unpin(cx))" => "(match inner { Poll::Ready(t) => t, Poll::Pending => return Poll::Pending })" # futures::ready! written out; the inner stream's item is the wrapper's parameter
+//%sub1 "warn!(\"{} does not match name_server: {}\", message.addr(), peer)" => "()" # R-log: a log line in tail position (arguments: two getters without side effects)
+//%mutant broken_pipe_is_a_clean_end "Some(Err(e)) => return Poll::Ready(Some(Err(NetError::from(e))))," => "Some(Err(e)) => return Poll::Ready(None),"
+//%end
+    }
+}
+
 } // verus!
 fn main() {}
